@@ -179,7 +179,15 @@ type replayFile struct {
 	Replay   string `json:"how_to_replay"`
 }
 
+// Extra holds thorough-tier additions to the evidence (tag variant, positive controls).
+var evidenceExtra = map[string]any{}
+
+func controlMode() bool { return os.Getenv("VERIF_CONTROL") == "1" }
+
 func (r *Report) Finish() int {
+	if controlMode() {
+		return r.finishControl()
+	}
 	known := map[string]KnownFinding{}
 	for _, k := range loadKnown() {
 		if k.Property == r.Property && k.Status == "known" {
@@ -258,6 +266,28 @@ func (r *Report) Finish() int {
 	return 0
 }
 
+// finishControl: the run is a positive control / variant of another run: print keys only, write nothing.
+func (r *Report) finishControl() int {
+	known := map[string]bool{}
+	for _, k := range loadKnown() {
+		if k.Property == r.Property && k.Status == "known" {
+			known[k.Key] = true
+		}
+	}
+	n := 0
+	for _, o := range r.Obligations {
+		if !o.OK && !known[o.Key] {
+			n++
+			fmt.Printf("CONTROL-VIOLATION %s | %s | %s\n", o.Key, o.Where, o.Why)
+		}
+	}
+	fmt.Printf("CONTROL-SUMMARY obligations=%d violations=%d\n", len(r.Obligations), n)
+	if n > 0 {
+		return 1
+	}
+	return 0
+}
+
 func (r *Report) writeEvidence(viol int) {
 	total, disch := 0, 0
 	var samples []any
@@ -311,6 +341,9 @@ func (r *Report) writeEvidence(viol int) {
 		"assumptions": r.Assumptions,
 		"wall_s":      time.Since(r.Start).Seconds(),
 		"violations":  viol,
+	}
+	for k, v := range evidenceExtra {
+		ev["coverage"].(map[string]any)[k] = v
 	}
 	b, err := json.MarshalIndent(ev, "", " ")
 	if err != nil {
